@@ -37,7 +37,8 @@ def tables(seed):
         'F': np.round(generic_points(N, seed, tag=20), 3) + 1.0,
         'P': np.round(generic_points(N, seed, tag=21), 3) - 1.0,
         'V': np.round(generic_points(N, seed, tag=22) * 0.2, 4),
-        'x': np.array([9.0, 8.0, 7.0]), 'x2': np.array([-3.0, -2.0, -1.0]), 'v': np.array([0.5, 0.25, -0.125]),
+        'x': np.array([9.0, 8.0, 7.0]), 'x2': np.array([-3.0, -2.0, -1.0]), 'x3': np.array([4.0, -6.0, 5.0]),
+        'v': np.array([0.5, 0.25, -0.125]),
     }
 
 
@@ -380,6 +381,10 @@ class C18(Check):
                             at.position = T['x2'].copy()
                     mod.pos = mod.pos.copy()
                     mod.pos[i2] = T['x2']
+                    # ... and through views obtained by iteration that are HELD beyond their loop step
+                    views = list(obj)
+                    views[0].position = T['x3'].copy()
+                    mod.pos[0] = T['x3']
                 else:
                     raise AssertionError(name)
             except AssertionError:
